@@ -143,6 +143,20 @@ CLAIMED['C06'] = dict(
          'h5py with a child killed by os._exit at the same operation '
          '(flushing after every operation for the write-through model).')
 
+CLAIMED['C14'] = dict(
+    technique='bounded symbolic execution of the real equal-weight branch '
+              'of posterior() with symbolic boost and symbolic uniform '
+              'draws; repeat counts against an independent floor/Bernoulli '
+              'specification decided by z3; replay with real exp and a '
+              'sweep of the draws',
+    text='For arbitrary weights (including zero-weight samples) and every '
+         'boost in the bound the solver shows the stochastic-rounding '
+         'repeat counts, one own independent draw per sample (hence '
+         'expectation r), no repeats for boost <= 1, order and payload '
+         'preservation, equal normalised weights and that the weighted '
+         'posterior is untouched.',
+    design_ref='3 (C14)')
+
 NOT_APPLICABLE = {
     'C04': 'statement about the distribution of whole-program outputs over '
            'seed ensembles; no bounded symbolic input space decides it '
